@@ -99,15 +99,17 @@ class Check:
         reviewed shape cannot decide it, and say so (ANALYSIS-ERROR, exit 2) instead of guessing a violation. Rules that
         positively identify a violating construct wherever it sits (robust) keep their verdict."""
         if repo is not None:
-            from .template import reviewed_shape, statement_shape, shape_diff
+            from .template import function_diff
+            known = load_known()
             memo = {}
             for o in self.obs:
+                if not o.ok and match_known(known, self.prop, o) is not None:
+                    o.robust = True       # identified and demonstrated on the reviewed tree already (open known finding)
                 if o.ok or o.stmtdiff or o.robust:
                     continue
                 if o.anchor not in memo:
                     fi = repo.funcs.get(o.anchor)
-                    ref = reviewed_shape(o.anchor)
-                    memo[o.anchor] = (shape_diff(ref, statement_shape(fi)), len(ref)) if (fi is not None and ref) else None
+                    memo[o.anchor] = function_diff(fi) if fi is not None else None
                 o.stmtdiff = memo[o.anchor]
         big = [o for o in self.obs if not o.ok and o.stmtdiff and ((o.stmtdiff[0] >= 8 and o.stmtdiff[0] >= 0.5 * o.stmtdiff[1]) or o.stmtdiff[0] >= 40)]
         refused = []
